@@ -418,6 +418,7 @@ func runC07(ctx *Ctx) {
 	defer do.run(ctx)
 	ctx.Rep.Rule = "pages with nested ul/ol/li/blockquote/pre to depth 5, partially retained lists, content only in inner lists, media and data tables inside lists and quotes; distinct by structure; non-trivial = a retained word with chain length >= 2 and a list with both kept and dropped items"
 	contentRun{id: "C07", n: [2]int{500, 20000}, url: pageURL,
+		setup: func(g *PageGen) { g.MathVoid = true },
 		corr: func(ctx *Ctx, x *distilled, replay interface{}) {
 			pc.add(ctx, x.D, x.Root, true, replay)
 			addRenderCases(tr, do, ctx.Rep, x.Src, pageURL, replay, 6)
@@ -459,8 +460,10 @@ func runC09(ctx *Ctx) {
 		}
 	}
 	contentRun{id: "C09", n: [2]int{300, 12000}, url: pageURL,
+		setup: func(g *PageGen) { g.MathVoid = true },
 		extra: func(ctx *Ctx, i int, r *Rng) []string {
 			g := newPageGen(r)
+			g.MathVoid = true
 			g.Weights = []W{{"para", 50}, {"shortpara", 10}, {"heading", 5}, {"list", 10}, {"quote", 8}, {"pre", 3}, {"links", 6}, {"divwrap", 8}, {"baretext", 5}}
 			return []string{g.Page(r.Range(3, 12), ""), newPageGen(newRng(ctx.Seed, fmt.Sprintf("C09/fs/%d", i))).FilterStressPage()}
 		},
